@@ -171,14 +171,22 @@ fn fam_lzma(ctx: &CaseCtx, cov: &mut Cov) -> CaseOut {
                 f.extend_from_slice(&enc.payload);
                 let want = f.len();
                 f.extend_from_slice(&t);
-                (sut::decode(Entry::Lzma, &f, &sut::default_options(), rk, &sink, &obs), f, want)
+                // options that do not bind a complete, well-formed stream must not move the reader
+                // either: incomplete input allowed, a generous memory limit
+                let o = match rng.below(4) {
+                    0 => sut::opts(UnpackedSize::ReadFromHeader, None, true),
+                    1 => sut::opts(UnpackedSize::ReadFromHeader, Some(1 << 30), rng.chance(1, 2)),
+                    _ => sut::default_options(),
+                };
+                cov.name(if o.allow_incomplete { "sized_lzma.incomplete_input_allowed" } else { "sized_lzma.default_incomplete_handling" }, 1);
+                (sut::decode(Entry::Lzma, &f, &o, rk, &sink, &obs), f, want)
             }
             1 => {
                 let mut f = sut::lzma_header(props.byte(), 4096, None);
                 f.extend_from_slice(&enc.payload);
                 let want = f.len();
                 f.extend_from_slice(&t);
-                let o = sut::opts(UnpackedSize::UseProvided(Some(len)), None, false);
+                let o = sut::opts(UnpackedSize::UseProvided(Some(len)), None, rng.chance(1, 3));
                 (sut::decode(Entry::Lzma, &f, &o, rk, &sink, &obs), f, want)
             }
             _ => {
